@@ -19,6 +19,7 @@ type out struct {
 	Text2    string   `json:"text2"`
 	NoPos2   string   `json:"nopos2"`
 	Classes  []string `json:"classes"`
+	Lits     []string `json:"lits"`
 	Methods  [][]string `json:"methods"`
 	Rules    []string `json:"rules"`
 }
@@ -42,9 +43,10 @@ func main() {
 		for _, r := range gen.ClassLines(g) {
 			cl = append(cl, r)
 		}
+		lits := gen.LitLines(g)
 		t2 := gen.PrintFront(g, *seed*37+int64(i)+1000003, o)
 		np2 := gen.ExpectedDump(g, t2, false)
-		enc.Encode(out{ID: fmt.Sprintf("f%d-%d", *seed, i), Text: t1, Expected: e, NoPos: np, Text2: t2, NoPos2: np2, Classes: cl, Methods: gen.ExpectedMethods(g), Rules: ruleNames(g)})
+		enc.Encode(out{ID: fmt.Sprintf("f%d-%d", *seed, i), Text: t1, Expected: e, NoPos: np, Text2: t2, NoPos2: np2, Classes: cl, Lits: lits, Methods: gen.ExpectedMethods(g), Rules: ruleNames(g)})
 	}
 }
 
